@@ -25,7 +25,8 @@ type CiOp struct {
 	Mn    int64     `json:"mn,omitempty"`
 	Mx    int64     `json:"mx,omitempty"`
 	Ts    int64     `json:"ts,omitempty"`
-	Data  []int64   `json:"d,omitempty"`   // rebuild: the chunk's timestamps
+	Data  []int64   `json:"d,omitempty"`   // rebuild: the chunk's (readable) timestamps
+	Ann   []int64   `json:"ann,omitempty"` // rebuild: min and max of everything OnWrite has announced for the chunk so far
 	Cks   []CiChunk `json:"cks,omitempty"` // sync
 }
 type CiChunk struct {
@@ -105,6 +106,19 @@ func tsProcess(r *Rng, kind string, n int, cur *int64) []int64 {
 		}
 	}
 	return out
+}
+
+func min64(a, b int64) int64 {
+	if a < b {
+		return a
+	}
+	return b
+}
+func max64(a, b int64) int64 {
+	if a > b {
+		return a
+	}
+	return b
 }
 
 func minmax(v []int64) (int64, int64) {
@@ -204,6 +218,39 @@ func indexBounds(recs []tmindex.IdxRecord, data []int64) string {
 func genCiRebuild(r *Rng) *CiCase {
 	cc := &CiCase{}
 	cur := int64(r.Range(-300, 5000))
+	if r.Chance(1, 3) {
+		// restart-shaped: the index knows nothing (its files are gone), the chunk has n0 records, and the first thing that
+		// happens is a write notification for records n0.. : reported corrupted; the rebuild scans the chunk while the
+		// new records are not readable yet (still in the chunk writer's buffer), so it sees the first n0 records only
+		n0 := r.PickInt(1, 10, 249, 250, 251, 600)
+		old := tsProcess(r, "mono", n0, &cur)
+		cur += int64(r.Range(0, 30))
+		k := r.PickInt(1, 10, 50, 251)
+		nw := tsProcess(r, "mono", k, &cur)
+		mn, mx := minmax(nw)
+		omn, omx := minmax(old)
+		cc.Ops = append(cc.Ops, CiOp{K: "write", Cid: 1, First: int64(n0), Last: int64(n0 + k - 1), Mn: mn, Mx: mx},
+			CiOp{K: "info", Cid: 1},
+			CiOp{K: "rebuild", Cid: 1, Data: old, Ann: []int64{min64(mn, omn), max64(mx, omx)}},
+			CiOp{K: "info", Cid: 1}, CiOp{K: "data", Cid: 1})
+		full := append(append([]int64{}, old...), nw...)
+		for j := 0; j < 6; j++ {
+			t := full[r.Intn(len(full))] + int64(r.Range(-1, 1))
+			cc.Ops = append(cc.Ops, CiOp{K: "ge", Cid: 1, Ts: t}, CiOp{K: "lt", Cid: 1, Ts: t})
+		}
+		cc.Ops = append(cc.Ops, CiOp{K: "ge", Cid: 1, Ts: mn}, CiOp{K: "lt", Cid: 1, Ts: mx}, CiOp{K: "ge", Cid: 1, Ts: mx}, CiOp{K: "lt", Cid: 1, Ts: omx})
+		cc.Ops = append(cc.Ops, CiOp{K: "sync", Cks: []CiChunk{{Cid: 1, Data: full}}}, CiOp{K: "info", Cid: 1})
+		pos := int64(len(full))
+		for w := r.Range(0, 2); w > 0; w-- {
+			n := r.PickInt(1, 10, 250, 251)
+			tss := tsProcess(r, "mono", n, &cur)
+			a, b := minmax(tss)
+			cc.Ops = append(cc.Ops, CiOp{K: "write", Cid: 1, First: pos, Last: pos + int64(n) - 1, Mn: a, Mx: b},
+				CiOp{K: "data", Cid: 1}, CiOp{K: "info", Cid: 1}, CiOp{K: "ge", Cid: 1, Ts: a}, CiOp{K: "lt", Cid: 1, Ts: b})
+			pos += int64(n)
+		}
+		return cc
+	}
 	var cks []CiChunk
 	nck := r.PickInt(1, 1, 2)
 	for c := 1; c <= nck; c++ {
@@ -469,8 +516,12 @@ func runCi(rp Replay) (*Case, error) {
 					viol = &Violation{Class: "rebuilt-index-bounds", Detail: fmt.Sprintf("chunk %d (%d records) rebuilt by scanning: %s", op.Cid, len(op.Data), msg)}
 				}
 				mn, mx := minmax(op.Data)
+				if len(op.Ann) == 2 {
+					// ... and everything OnWrite has announced for the chunk, readable yet or not
+					mn, mx = min64(mn, op.Ann[0]), max64(mx, op.Ann[1])
+				}
 				if ri, e := ti.GetRecordsInfo(src, chunk.Id(op.Cid)); e == nil && (ri.MinTs > mn || ri.MaxTs < mx) && viol == nil {
-					viol = &Violation{Class: "rebuilt-index-hull", Detail: fmt.Sprintf("chunk %d rebuilt by scanning: hull [%d,%d] does not contain the timestamps [%d,%d]", op.Cid, ri.MinTs, ri.MaxTs, mn, mx)}
+					viol = &Violation{Class: "rebuilt-index-hull", Detail: fmt.Sprintf("chunk %d rebuilt by scanning: hull [%d,%d] does not contain the timestamps [%d,%d] scanned or announced by OnWrite", op.Cid, ri.MinTs, ri.MaxTs, mn, mx)}
 				}
 			}
 		case "sync":
